@@ -623,4 +623,360 @@ mod n {
             }
         });
     }
+
+    // ---- C13: posed polygons, bounding boxes, reveal surfaces --------------------------------------------
+    use crate::types::HasSurface;
+    use crate::verif_root::mk;
+    use crate::{point, vector, Point3, WallGeom, Window};
+    use super::super::raytracing::{Bounded, Intersectable, Ray, AABB};
+
+    const POSES: [(f32, f32); 7] = [(90.0, 0.0), (90.0, 45.0), (90.0, -90.0), (0.0, 0.0), (180.0, 0.0), (30.0, 120.0), (135.0, 180.0)];
+
+    fn polys() -> Vec<crate::Polygon> {
+        vec![
+            vec![point![0.0, 0.0], point![4.0, 0.0], point![4.0, 3.0], point![0.0, 3.0]],
+            vec![point![0.0, 0.0], point![4.0, 0.0], point![0.0, 4.0]],
+            vec![point![0.0, 0.0], point![4.0, 0.0], point![4.0, 4.0], point![2.0, 1.0], point![0.0, 4.0]],
+            vec![point![1.0, 0.0], point![3.0, 0.0], point![4.0, 2.0], point![2.0, 4.0], point![0.0, 2.0]],
+        ]
+    }
+
+    fn inside_simple(px: f32, py: f32, poly: &[crate::Point2]) -> Option<bool> {
+        // exact enough for quarter-grid points and integer polygons: f64 crossing number, None within 1 mm of the outline
+        let n = poly.len();
+        let (px, py) = (px as f64, py as f64);
+        let mut cross = 0;
+        for i in 0..n {
+            let (x0, y0) = (poly[i].x as f64, poly[i].y as f64);
+            let (x1, y1) = (poly[(i + 1) % n].x as f64, poly[(i + 1) % n].y as f64);
+            // distance to segment
+            let (dx, dy) = (x1 - x0, y1 - y0);
+            let t = (((px - x0) * dx + (py - y0) * dy) / (dx * dx + dy * dy)).max(0.0).min(1.0);
+            let (qx, qy) = (x0 + t * dx, y0 + t * dy);
+            if ((px - qx).powi(2) + (py - qy).powi(2)).sqrt() < 1.0e-3 {
+                return None;
+            }
+            if (y0 <= py) != (y1 <= py) {
+                let xc = x0 + (py - y0) / (y1 - y0) * dx;
+                if xc > px {
+                    cross += 1;
+                }
+            }
+        }
+        Some(cross % 2 == 1)
+    }
+
+    #[test]
+    fn n_c13_ray_posed() {
+        drive("C13.ray.posed", "WallGeom::intersects for 4 polygons x 7 poses (tilt, azimuth) x 2 positions; rays from 2 local origins on either side through a 6x6 quarter-grid of in-plane targets, towards / away", |c| {
+            let poly = c.of(&polys());
+            let (tilt, az) = c.of(&POSES);
+            let pos = c.of(&[point![0.0f32, 0.0, 0.0], point![3.0f32, -2.0, 5.0]]);
+            let g = WallGeom { tilt, azimuth: az, position: Some(pos), polygon: poly.clone() };
+            let m = g.to_global_coords_matrix().unwrap();
+            let side = c.of(&[2.5f32, -1.5]);
+            let tx = -0.75 + c.pick(6) as f32;
+            let ty = -0.75 + c.pick(6) as f32;
+            let towards = c.flag();
+            let lo = point![1.3f32, 0.7, side];
+            let lt = point![tx, ty, 0.0];
+            let (go, gt) = (m * lo, m * lt);
+            let dir = if towards { gt - go } else { go - gt };
+            c.note(format!("poly {:?} tilt {} az {} pos {:?} local origin {:?} target ({}, {}) towards {}", poly.len(), tilt, az, pos, lo, tx, ty, towards));
+            let ray = Ray::new(go, dir);
+            let got = g.intersects(&ray);
+            if let Some(inside) = inside_simple(tx, ty, &poly) {
+                let want = towards && inside;
+                c.check("C13.ray.posed", got.is_some() == want, || format!("WallGeom::intersects = {:?}, exact geometry: hit = {}", got, want));
+                if let Some(t) = got {
+                    let d = (gt - go).norm();
+                    c.check("C13.ray.posed.t", (t - d).abs() <= 1e-3 * d.max(1.0), || format!("t = {} but crossing point at {}", t, d));
+                }
+                if want {
+                    c.nontrivial(format!("{} {} {} {:?} {} {} {}", poly.len(), tilt, az, pos, side, tx, ty));
+                }
+                c.sample(|| format!("tilt {} az {} target ({}, {}) towards {} -> {:?}", tilt, az, tx, ty, towards, got));
+            }
+            // without position there is no geometric definition: never a hit, and the box is the empty box
+            let g0 = WallGeom { tilt, azimuth: az, position: None, polygon: poly.clone() };
+            c.check("C13.ray.posed.no_position", g0.intersects(&ray).is_none(), || "hit on an element without position".to_string());
+        });
+    }
+
+    #[test]
+    fn n_c13_geom_aabb() {
+        drive("C13.geom.aabb", "WallGeom::aabb for 4 polygons x 7 poses x 2 positions: contains every transformed corner and is tight", |c| {
+            let poly = c.of(&polys());
+            let (tilt, az) = c.of(&POSES);
+            let pos = c.of(&[point![0.0f32, 0.0, 0.0], point![3.0f32, -2.0, 5.0]]);
+            let g = WallGeom { tilt, azimuth: az, position: Some(pos), polygon: poly.clone() };
+            let m = g.to_global_coords_matrix().unwrap();
+            let b = g.aabb();
+            c.note(format!("poly {} tilt {} az {} pos {:?}", poly.len(), tilt, az, pos));
+            let corners: Vec<Point3> = poly.iter().map(|p| m * point![p.x, p.y, 0.0]).collect();
+            let eps = 1e-4;
+            for q in &corners {
+                c.check("C13.geom.aabb.contains", q.x >= b.min.x - eps && q.x <= b.max.x + eps && q.y >= b.min.y - eps && q.y <= b.max.y + eps && q.z >= b.min.z - eps && q.z <= b.max.z + eps, || format!("corner {:?} outside {:?}", q, b));
+            }
+            let touch = |f: &dyn Fn(&Point3) -> f32, v: f32| corners.iter().any(|q| (f(q) - v).abs() <= eps);
+            c.check("C13.geom.aabb.tight", touch(&|q| q.x, b.min.x) && touch(&|q| q.x, b.max.x) && touch(&|q| q.y, b.min.y) && touch(&|q| q.y, b.max.y) && touch(&|q| q.z, b.min.z) && touch(&|q| q.z, b.max.z), || format!("box {:?} not tight around {:?}", b, corners));
+            let g0 = WallGeom { tilt, azimuth: az, position: None, polygon: poly.clone() };
+            c.check("C13.geom.aabb.no_position", g0.aabb() == AABB::default(), || "box for an element without position".to_string());
+            c.nontrivial(format!("{} {} {} {:?}", poly.len(), tilt, az, pos));
+            c.sample(|| format!("tilt {} az {} -> {:?}", tilt, az, b));
+        });
+    }
+
+    #[test]
+    fn n_c13_setback() {
+        drive("C13.setback", "Window::shades_for_setback: wall 6x3 in 7 poses x 2 positions; window 1.5 x 1.2 at (1,0.8) or (0,0); setback {0.005, 0.2, 1.0}; window position present / absent", |c| {
+            let (tilt, az) = c.of(&POSES);
+            let pos = c.of(&[point![0.0f32, 0.0, 0.0], point![3.0f32, -2.0, 5.0]]);
+            let wpos = c.of(&[point![1.0f32, 0.8], point![0.0f32, 0.0]]);
+            let sb = c.of(&[0.005f32, 0.2, 1.0]);
+            let has_pos = c.flag();
+            let wall_has_pos = c.flag();
+            let g = WallGeom { tilt, azimuth: az, position: if wall_has_pos { Some(pos) } else { None }, polygon: mk::rect(6.0, 3.0) };
+            let (w, h) = (1.5f32, 1.2f32);
+            let win = mk::window(0x11, mk::uid(1), mk::uid(0xD0), w, h, if has_pos { Some(wpos) } else { None }, sb);
+            c.note(format!("tilt {} az {} pos {:?} wall_has_pos {} wpos {:?} has_pos {} setback {}", tilt, az, pos, wall_has_pos, wpos, has_pos, sb));
+            let r = win.shades_for_setback(&g);
+            if sb < 0.01 || !has_pos {
+                c.check("C13.setback.none", matches!(&r, Some(v) if v.is_empty()), || format!("expected no reveal surfaces, got {:?}", r.as_ref().map(|v| v.len())));
+                return;
+            }
+            if !wall_has_pos {
+                c.check("C13.setback.wall_without_position", r.is_none() || r.as_ref().unwrap().is_empty(), || "reveal surfaces on a wall without position".to_string());
+                return;
+            }
+            let shades = match r {
+                Some(v) => v,
+                None => {
+                    c.check("C13.setback.some", false, || "None for a fully defined window".to_string());
+                    return;
+                }
+            };
+            c.check("C13.setback.four", shades.len() == 4, || format!("{} reveal surfaces", shades.len()));
+            let mut ids: Vec<_> = shades.iter().map(|(_, s)| s.id).collect();
+            ids.sort();
+            ids.dedup();
+            c.check("C13.setback.ids_distinct", ids.len() == shades.len(), || "duplicate ids".to_string());
+            c.check("C13.setback.linked", shades.iter().all(|(l, _)| *l == win.id), || "reveal surface not linked to its window".to_string());
+            // expected quads in world coordinates: along each window edge, from the wall plane (z=0) to the window plane (z=-setback)
+            let m = g.to_global_coords_matrix().unwrap();
+            let (x, y) = (wpos.x, wpos.y);
+            let edges = [
+                [(x, y + h), (x + w, y + h)],  // top
+                [(x, y), (x, y + h)],          // left
+                [(x + w, y), (x + w, y + h)],  // right
+                [(x, y), (x + w, y)],          // sill
+            ];
+            let mut matched = [false; 4];
+            for (_, s) in &shades {
+                let sm = s.geometry.to_global_coords_matrix().unwrap();
+                let got: Vec<Point3> = s.geometry.polygon.iter().map(|p| sm * point![p.x, p.y, 0.0]).collect();
+                c.check("C13.setback.quad", got.len() == 4, || format!("{} corners", got.len()));
+                for (k, e) in edges.iter().enumerate() {
+                    let want = [m * point![e[0].0, e[0].1, 0.0], m * point![e[1].0, e[1].1, 0.0], m * point![e[1].0, e[1].1, -sb], m * point![e[0].0, e[0].1, -sb]];
+                    let ok = want.iter().all(|q| got.iter().any(|p| (p - q).norm() <= 2e-3)) && got.iter().all(|p| want.iter().any(|q| (p - q).norm() <= 2e-3));
+                    if ok {
+                        matched[k] = true;
+                    }
+                }
+            }
+            let vertical = (tilt - 90.0).abs() < 1e-3;
+            c.check("C13.setback.spans_gap", matched[0] && matched[3] && (!vertical || (matched[1] && matched[2])), || format!("edges covered (top, left, right, sill): {:?}", matched));
+            if !vertical {
+                // side reveals of windows in roofs / floors / sloped elements, reported separately
+                c.check("C13.setback.fins_tilted", matched[1] && matched[2], || format!("side reveals of a window in a non-vertical element (tilt {}) do not span the gap: edges covered (top, left, right, sill): {:?}", tilt, matched));
+            }
+            c.nontrivial(format!("{} {} {:?} {:?} {}", tilt, az, pos, wpos, sb));
+            c.sample(|| format!("tilt {} az {} setback {} -> 4 quads, edges matched {:?}", tilt, az, sb, matched));
+        });
+    }
+
+    // ---- C13: slab test of the axis aligned box ---------------------------------------------------------------
+    #[test]
+    fn n_c13_aabb_slab() {
+        drive("C13.aabb.slab", "AABB::intersects vs the exact slab test: box [1,3]x[0,2]x[-1,1]; origins on the integer grid -1..4 (z -2..2), directions with components in {-1,0,1} (non-zero), all dyadic: the arithmetic is exact", |c| {
+            let b = AABB::new(point![1.0, 0.0, -1.0], point![3.0, 2.0, 1.0]);
+            let o = [c.pick(6) as f32 - 1.0, c.pick(6) as f32 - 1.0, c.pick(5) as f32 - 2.0];
+            let d = [c.pick(3) as f32 - 1.0, c.pick(3) as f32 - 1.0, c.pick(3) as f32 - 1.0];
+            if d == [0.0, 0.0, 0.0] {
+                return;
+            }
+            c.note(format!("origin {:?} dir {:?}", o, d));
+            // exact slab test in f64 without normalising (scale-free)
+            let lo = [1.0f64, 0.0, -1.0];
+            let hi = [3.0f64, 2.0, 1.0];
+            let (mut tmin, mut tmax) = (f64::NEG_INFINITY, f64::INFINITY);
+            let mut miss = false;
+            let mut grazing = false;
+            for k in 0..3 {
+                let (ok, dk) = (o[k] as f64, d[k] as f64);
+                if dk == 0.0 {
+                    if ok < lo[k] || ok > hi[k] {
+                        miss = true;
+                    }
+                    if ok == lo[k] || ok == hi[k] {
+                        grazing = true;
+                    }
+                } else {
+                    let (t1, t2) = ((lo[k] - ok) / dk, (hi[k] - ok) / dk);
+                    tmin = tmin.max(t1.min(t2));
+                    tmax = tmax.min(t1.max(t2));
+                }
+            }
+            let want = !miss && tmax >= 0.0 && tmin <= tmax;
+            // rays sliding exactly along a face or touching only an edge/corner: either answer is acceptable
+            if grazing || (!miss && tmin == tmax) {
+                return;
+            }
+            let ray = Ray { origin: point![o[0], o[1], o[2]], dir: vector![d[0], d[1], d[2]] };
+            let got = b.intersects(&ray).is_some();
+            c.check("C13.aabb.slab", got == want, || format!("AABB::intersects = {} exact = {}", got, want));
+            let rayn = Ray::new(point![o[0], o[1], o[2]], vector![d[0], d[1], d[2]]);
+            c.check("C13.aabb.slab.normalised", b.intersects(&rayn).is_some() == want, || format!("normalised direction: {} exact = {}", b.intersects(&rayn).is_some(), want));
+            if want {
+                c.nontrivial(format!("{:?}{:?}", o, d));
+            }
+            c.sample(|| format!("origin {:?} dir {:?} -> {}", o, d, got));
+        });
+    }
+
+    // ---- C12: sunlit fraction and remote obstruction factor --------------------------------------------------
+    use super::super::ray_dir_to_sun;
+    use crate::{BoundaryType as BT, Model, Shade, SpaceType as ST};
+
+    /// South-facing wall 4x3 at the origin with one window; optional obstacles:
+    ///  0: a big wall 3 m in front (south), 1: an overhang above the window, 2: a side fin to the east,
+    ///  3: a wall behind the building (north) which can never be hit, 4: a low parapet far south (hides only very low sun)
+    fn c12_model(win_variant: usize, obstacles: &[bool; 5]) -> Model {
+        let mut m = mk::empty_model();
+        m.spaces.push(mk::space(0xA0, true, ST::CONDITIONED, 1.0, 3.0));
+        m.cons.materials.push(mk::material(0xE0, 0.5));
+        m.cons.wallcons.push(mk::wallcons(0xC0, &[(0xE0, 0.3)]));
+        m.cons.glasses.push(mk::glass(0xF0));
+        m.cons.frames.push(mk::frame(0xF1));
+        m.cons.wincons.push(mk::wincons(0xD0, mk::uid(0xF0), mk::uid(0xF1)));
+        let wall_pos = if win_variant == 4 { None } else { Some(point![0.0, 0.0, 0.0]) };
+        m.walls.push(mk::wall(1, BT::EXTERIOR, mk::uid(0xA0), None, mk::uid(0xC0), 90.0, 0.0, mk::rect(4.0, 3.0), wall_pos));
+        m.walls.push(mk::wall(2, BT::GROUND, mk::uid(0xA0), None, mk::uid(0xC0), 180.0, 0.0, mk::rect(4.0, 5.0), Some(point![0.0, 5.0, 0.0])));
+        let (wpos, sb, wallid) = match win_variant {
+            0 => (Some(point![1.0, 1.0]), 0.0, mk::uid(1)),
+            1 => (Some(point![1.0, 1.0]), 0.3, mk::uid(1)),
+            2 => (None, 0.0, mk::uid(1)),
+            3 => (Some(point![1.0, 1.0]), 0.0, mk::uid(0x77)), // wall missing
+            _ => (Some(point![1.0, 1.0]), 0.0, mk::uid(1)),    // wall without position
+        };
+        m.windows.push(mk::window(0x11, wallid, mk::uid(0xD0), 1.5, 1.2, wpos, sb));
+        if obstacles[0] {
+            m.walls.push(mk::wall(3, BT::EXTERIOR, mk::uid(0xA0), None, mk::uid(0xC0), 90.0, 180.0, mk::rect(40.0, 30.0), Some(point![20.0, -3.0, 0.0])));
+        }
+        if obstacles[1] {
+            m.shades.push(Shade { id: mk::uid(0x31), name: "overhang".into(), geometry: WallGeom { tilt: 0.0, azimuth: 0.0, position: Some(point![0.0, -1.5, 2.3]), polygon: mk::rect(4.0, 1.5) } });
+        }
+        if obstacles[2] {
+            m.shades.push(Shade { id: mk::uid(0x32), name: "fin".into(), geometry: WallGeom { tilt: 90.0, azimuth: 90.0, position: Some(point![2.7, -2.0, 0.0]), polygon: mk::rect(2.0, 3.0) } });
+        }
+        if obstacles[3] {
+            m.walls.push(mk::wall(4, BT::ADIABATIC, mk::uid(0xA0), None, mk::uid(0xC0), 90.0, 180.0, mk::rect(40.0, 30.0), Some(point![20.0, 9.0, 0.0])));
+        }
+        if obstacles[4] {
+            m.shades.push(Shade { id: mk::uid(0x33), name: "parapet".into(), geometry: WallGeom { tilt: 90.0, azimuth: 0.0, position: Some(point![-10.0, -30.0, 0.0]), polygon: mk::rect(30.0, 1.0) } });
+        }
+        m
+    }
+
+    #[test]
+    fn n_c12_sunlit() {
+        drive("C12.sunlit", "Model::sunlit_fraction: south window (normal / set back 0.3 / without position / wall missing / wall without position) x all subsets of 5 obstacles x sun azimuth {0,60,-60,180} x altitude {8,35,75}; each subset is compared with every one-obstacle extension", |c| {
+            let wv = c.pick(5);
+            let mut obs = [false; 5];
+            for k in 0..5 {
+                obs[k] = c.flag();
+            }
+            let az = c.of(&[0.0f32, 60.0, -60.0, 180.0]);
+            let alt = c.of(&[8.0f32, 35.0, 75.0]);
+            c.note(format!("window variant {} obstacles {:?} sun az {} alt {}", wv, obs, az, alt));
+            let dir = ray_dir_to_sun(az, alt);
+            let eval = |o: &[bool; 5]| -> f32 {
+                let m = c12_model(wv, o);
+                let w = &m.windows[0];
+                let origins = m.ray_origins_for_window(w);
+                let occ = m.collect_occluders();
+                m.sunlit_fraction(w, &origins, &dir, &occ)
+            };
+            let f = eval(&obs);
+            c.check("C12.sunlit.range", f >= 0.0 && f <= 1.0, || format!("sunlit fraction {}", f));
+            match wv {
+                2 | 3 | 4 => c.check("C12.sunlit.no_geometry", f == 1.0, || format!("sunlit fraction {} for a window / wall without geometric position (want 1)", f)),
+                _ => {
+                    if az == 180.0 {
+                        c.check("C12.sunlit.behind", f == 0.0, || format!("sun behind the window but sunlit fraction {}", f));
+                    } else if !obs[0] && !obs[1] && !obs[2] && !obs[4] && wv == 0 {
+                        c.check("C12.sunlit.unobstructed", f == 1.0, || format!("nothing can hide the window but sunlit fraction {}", f));
+                    }
+                    if obs[0] && az != 180.0 && alt < 40.0 && az == 0.0 {
+                        // a 30 m high, 40 m wide wall 3 m in front hides the window from any sun below 80 degrees
+                        c.check("C12.sunlit.hidden", f == 0.0, || format!("window fully hidden but sunlit fraction {}", f));
+                    }
+                }
+            }
+            // adding an obstacle never increases the sunlit fraction
+            for k in 0..5 {
+                if !obs[k] {
+                    let mut o2 = obs;
+                    o2[k] = true;
+                    let f2 = eval(&o2);
+                    c.check("C12.sunlit.monotone", !(f2 > f), || format!("adding obstacle {} raised the sunlit fraction from {} to {}", k, f, f2));
+                }
+            }
+            if f > 0.0 && f < 1.0 {
+                c.nontrivial(format!("{} {:?} {} {}", wv, obs, az, alt));
+            }
+            c.sample(|| format!("variant {} obstacles {:?} az {} alt {} -> {}", wv, obs, az, alt, f));
+        });
+    }
+
+    #[test]
+    fn n_c12_fshobst() {
+        drive("C12.fshobst", "Model::compute_fshobst on the same models (window normal / set back) x all subsets of 5 obstacles x climate zone {D3, A3c}: range, unobstructed >= 0.97, monotone in the obstacle set", |c| {
+            use crate::climatedata::ClimateZone;
+            let wv = c.pick(2);
+            let mut obs = [false; 5];
+            for k in 0..5 {
+                obs[k] = c.flag();
+            }
+            let zone = c.of(&[ClimateZone::D3, ClimateZone::A3c]);
+            c.note(format!("window variant {} obstacles {:?} zone {}", wv, obs, zone));
+            let eval = |o: &[bool; 5]| -> Option<f32> {
+                let mut m = c12_model(wv, o);
+                m.meta.climate = zone;
+                m.compute_fshobst().get(&mk::uid(0x11)).copied()
+            };
+            let f = eval(&obs);
+            c.check("C12.fshobst.present", f.is_some(), || "no factor computed for the window".to_string());
+            let f = f.unwrap_or(f32::NAN);
+            c.check("C12.fshobst.range", f >= 0.0 && f <= 1.0, || format!("F_sh,obst = {}", f));
+            if wv == 0 && !obs[0] && !obs[1] && !obs[2] && !obs[4] {
+                c.check("C12.fshobst.unobstructed", f >= 0.97, || format!("nothing can hide the window but F_sh,obst = {}", f));
+            }
+            if obs[0] {
+                c.check("C12.fshobst.hidden_has_diffuse_only", f < 0.9, || format!("window behind a 30 m wall but F_sh,obst = {}", f));
+            }
+            for k in 0..5 {
+                if !obs[k] {
+                    let mut o2 = obs;
+                    o2[k] = true;
+                    let f2 = eval(&o2).unwrap_or(f32::NAN);
+                    c.check("C12.fshobst.monotone", !(f2 > f), || format!("adding obstacle {} raised F_sh,obst from {} to {}", k, f, f2));
+                }
+            }
+            if f < 1.0 {
+                c.nontrivial(format!("{} {:?} {}", wv, obs, zone));
+            }
+            c.sample(|| format!("variant {} obstacles {:?} zone {} -> {}", wv, obs, zone, f));
+        });
+    }
 }
